@@ -9,7 +9,7 @@ import ast
 
 from ..core import AnchorError, atoms, call_name, decorators, norm, short, own_nodes, kwarg, FUNC_TYPES
 from ..cfg import cfg_of
-from ..lib import calls_in, stmts_in, gate, must_pass, node_has, params, raised_name, xnorm
+from ..lib import calls_in, stmts_in, gate, must_pass, node_has, params, raised_name, xnorm, decision_table
 from .. import grammar as G
 from .c01 import supported_versions
 
@@ -97,6 +97,26 @@ def rule_a(repo, chk, all_versions=False):
         chk.ob('C06.a', ok, s, 'a tuple right-hand side is always wrapped')
         ok = any("tree_name.parent.type == 'trailer'" in t and 'get_next_sibling() is not None' in t for t in texts)
         chk.ob('C06.a', ok, s, 'a name inside a trailer chain (a.x.y) is wrapped')
+    # the whole decision, however it is written: for every assignment of the four facts the reference is wrapped exactly when
+    # (tuple) or (parent in table) or (trailer followed by a sibling); a test of anything else in front of it is explored both ways
+    # and shows up as a second outcome
+    c = cfg_of(f)
+    heads = [n for n in c.nodes if n.kind == 'for' and isinstance(n.ast, ast.For) and norm(n.ast.iter) == 'references']
+    if len(heads) == 1 and wraps:
+        def label(n):
+            if n.kind == 'stmt' and isinstance(n.ast, ast.Assign) and norm(n.ast.value) == "'(' + replace_code + ')'":
+                return 'wrap'
+            if n.kind == 'stmt' and 'file_to_node_changes.setdefault' in norm(n.ast):
+                return 'plain'
+            return None
+        bad = decision_table(f, heads[0], [('tuple', "rhs.type == 'testlist_star_expr'"), ('in_table', 'tree_name.parent.type in %s' % tname),
+                                           ('trailer', "tree_name.parent.type == 'trailer'"), ('followed', 'tree_name.parent.get_next_sibling() is not None')],
+                             label, lambda fc: 'wrap' if fc['tuple'] or fc['in_table'] or (fc['trailer'] and fc['followed']) else 'plain')
+        chk.ob('C06.a', not bad, heads[0].ast, 'decision table of the parenthesisation (4 facts): wrapped exactly when the value is a bare tuple, the use site\'s '
+               'parent is in the table, or the name is a trailer followed by a sibling - nothing about the inlined value can switch it off',
+               '; '.join(bad[:3]), key='inline-wrap-table')
+    else:
+        chk.ob('C06.a', False, f, 'decision table of the parenthesisation: one loop over `references` and one wrapping statement', key='inline-wrap-table')
     # everything else about the replacement text
     rc = [s for s in stmts_in(f, ast.Assign) if norm(s.targets[0]) == 'replace_code']
     chk.ob('C06.a', len(rc) == 1 and norm(rc[0].value) == 'rhs.get_code(include_prefix=False)', f, 'the replacement is the right-hand side\'s own code')
